@@ -128,12 +128,14 @@ def _case(draw):
         if body is None:
             want = "N"
             body = draw(_helper_body(list(zip(names, kinds)), helpers, "N"))
-        params = []
-        for j, (nm, kd) in enumerate(zip(names, kinds)):
-            d = None
-            if kd == "N" and j == n - 1 and draw(st.integers(0, 3)) == 0:
-                d = str(draw(st.integers(1, 5)))
-            params.append([nm, kd, d])
+        params = [[nm, kd, None] for nm, kd in zip(names, kinds)]
+        # any trailing run of number parameters may have defaults (all different, so that a mix-up between them shows)
+        if draw(st.integers(0, 2)) == 0:
+            dvals = draw(st.permutations([1, 2, 3, 4, 5]))
+            for j in range(n - 1, -1, -1):
+                if params[j][1] != "N" or (j < n - 1 and draw(st.booleans())):
+                    break
+                params[j][2] = str(dvals[j])
         style = draw(st.sampled_from(["def", "def", "lambda", "defdoc", "lambda-arg", "lambda-decoy"]))
         nparams = [nm for nm, kd in zip(names, kinds) if kd == "N"]
         if want == "N" and nparams and draw(st.integers(0, 5)) == 0:
@@ -172,8 +174,8 @@ def _case(draw):
                 a = p
             args.append([pn, a, d])
         shape = draw(st.integers(0, 4))
-        if args and args[-1][2] is not None and draw(st.booleans()):
-            args = args[:-1]  # omit the defaulted parameter
+        while args and args[-1][2] is not None and draw(st.booleans()):
+            args = args[:-1]  # omit a trailing defaulted parameter (some, all or none of them)
         if shape == 0 or len(args) == 0:
             call = ", ".join(a for _, a, _ in args)
         elif shape == 1:
